@@ -273,6 +273,14 @@ def check_fftn_spec(x: np.ndarray, rng: random.Random) -> list[str]:
     refl = lambda a: np.roll(np.flip(a, axis=ax), 1, axis=ax)  # noqa: E731
     if np.max(np.abs(np.fft.fftn(refl(x), norm="ortho") - refl(X))) > 100 * tol * nrm:
         bad.append("reflect")
+    # the mathematical definition (Model.Spectrum.dftc / dft_math), evaluated directly in O(N^2) on small arrays:
+    # X_k = N^(-1/2) sum_n x_n exp(-2 pi i sum_a k_a n_a / N_a), mode by mode in C order
+    if N <= 96:
+        idx = np.indices(x.shape).reshape(x.ndim, -1)                      # (d, N) multi-indices in C order
+        ph = sum(np.outer(idx[a], idx[a]) / x.shape[a] for a in range(x.ndim))
+        direct = (np.exp(-2j * np.pi * ph) @ x.ravel()) / math.sqrt(N)
+        if np.max(np.abs(direct - X.ravel())) > 100 * tol * nrm:
+            bad.append("definition")
     if x.ndim > 1:
         p = list(range(x.ndim))
         i = rng.randrange(x.ndim - 1)
